@@ -74,6 +74,8 @@ pub struct Exec {
 	/// compare get_num_column_value_entries with the model (multitree columns)
 	pub check_entries: bool,
 	/// accepted transactions in commit order (recorded with the prefix list)
+	/// columns the oracle does not read (C17: the column an interrupted administration call was working on)
+	pub skip_cols: Vec<u8>,
 	pub accepted_txs: Vec<Tx>,
 }
 
@@ -127,6 +129,7 @@ impl Exec {
 			commit_lost: false,
 			check_entries: true,
 			accepted_txs: vec![],
+			skip_cols: vec![],
 		};
 		ex.open(true)?;
 		Ok(ex)
@@ -155,6 +158,7 @@ impl Exec {
 			commit_lost: false,
 			check_entries: true,
 			accepted_txs: vec![],
+			skip_cols: vec![],
 		}
 	}
 
@@ -480,6 +484,9 @@ impl Exec {
 	pub fn check_all(&self) -> Vec<Fail> {
 		let mut out = vec![];
 		for ci in 0..self.model.cols.len() {
+			if self.skip_cols.contains(&(ci as u8)) {
+				continue
+			}
 			for clause in 0..3 {
 				let r = catch_unwind(AssertUnwindSafe(|| self.check_clause(ci, clause)));
 				match r {
